@@ -26,7 +26,7 @@ package main
 //
 // Driver lines:
 //   ps  <tr> <w> <delayUs> <ops>             every U is directly preceded by B: the outcome is determined,
-//                                            the model prints the same `delivered=… cb=… err=… unsub=…`
+//                                            the model prints the same `unsub=… delivered=… cb=… err=…`
 //   psr <tr> <w> <delayUs> <observed> <ops>  U races the messages in flight: the model checks that the observed
 //                                            delivery list is admissible (everything before the last barrier,
 //                                            then a sub-sequence of what was in flight); output `ok`
@@ -712,7 +712,7 @@ func (s c07Scn) line(res *c07Result) (string, string) {
 		sort.Ints(t)
 	}
 	return fmt.Sprintf("ps %s %d %d %s", s.tr, s.w, s.delayUs, s.opsArg()),
-		fmt.Sprintf("delivered=%s cb=%d err=%d unsub=%s", tagsArg(t), res.cb, res.errs, res.unsub)
+		fmt.Sprintf("unsub=%s delivered=%s cb=%d err=%d", res.unsub, tagsArg(t), res.cb, res.errs)
 }
 
 // ---------- generation ----------
